@@ -18,6 +18,7 @@ use crate::sem;
 
 pub fn build_packed(pc: &PackedCfg, pats: &[Vec<u8>]) -> Result<Option<packed::Searcher>, String> {
     guard(|| {
+        let _suspend = crate::engine::SuspendBudget::new();
         let mut config = packed::Config::new();
         config
             .match_kind(if pc.leftmost_longest { packed::MatchKind::LeftmostLongest } else { packed::MatchKind::LeftmostFirst })
@@ -512,6 +513,19 @@ pub fn c15_inproc(case: &Case, regions: &mut Regions, ctx: &mut Ctx) -> Result<(
             if cfg.supports_anchored(false) {
                 let out = s.replace_all_bytes(hay, &repl).map_err(|x| e("replace_all_bytes", x))?;
                 let _ = out.len();
+                if let Ok(text) = std::str::from_utf8(hay) {
+                    let repl_s: Vec<String> = (0..npats).map(|i| "r".repeat(i % 3)).collect();
+                    let out = s.replace_all_str(text, &repl_s).map_err(|x| e("replace_all (str)", x))?;
+                    if std::str::from_utf8(out.as_bytes()).is_err() {
+                        return Err(format!("{} replace_all (str) produced invalid UTF-8", w));
+                    }
+                    let mut dst = String::new();
+                    s.replace_all_with_str(text, &mut dst, |_, _, d| {
+                        d.push('x');
+                        true
+                    })
+                    .map_err(|x| e("replace_all_with (str)", x))?;
+                }
                 if std_kind && npats > 0 && case.patterns.iter().all(|p| !p.is_empty()) {
                     for it in s.stream_find(hay).map_err(|x| e("stream_find_iter", x))? {
                         let m = it.map_err(|io| format!("{} stream: io error {}", w, io))?;
@@ -558,6 +572,8 @@ pub fn c15_inproc(case: &Case, regions: &mut Regions, ctx: &mut Ctx) -> Result<(
     }
     if std::str::from_utf8(&case.haystack).is_err() {
         ctx.class("invalid-utf8");
+    } else if !case.haystack.is_ascii() {
+        ctx.class("valid-non-ascii-utf8 (str replace APIs run)");
     }
     if teddy_ran {
         ctx.class("teddy-path");
@@ -601,6 +617,16 @@ fn c15_strategy(tier: Tier) -> BoxedStrategy<Case> {
                 case.span = gen::realize_span(sr, case.haystack.len());
             }
             case.packed = Some(pc);
+            // every 8th case: a valid UTF-8 haystack over multi-byte characters
+            // (the &str replace routines must not panic on byte patterns that
+            // split characters)
+            if fill % 8 == 0 {
+                const CHARS: &[char] = &['a', 'é', '€', '😀', '\u{7ff}', '\u{800}', '\u{ffff}', '\u{10000}', '\u{100000}', '\u{10ffff}', 'b'];
+                let text: String = case.haystack.iter().take(40).map(|&b| CHARS[b as usize % CHARS.len()]).collect();
+                case.haystack = text.into_bytes();
+                case.span = gen::realize_span(sr, case.haystack.len());
+                case.sub = format!("{}+utf8", case.sub);
+            }
             case
         })
         .boxed()
@@ -841,7 +867,7 @@ fn c15_extra(tier: Tier, seed: u64, total: &mut Ctx) -> Result<bool, Violation> 
 pub const C15: PropDef = PropDef {
     id: "C15",
     rule: "16 child processes each run proptest-generated cases (arbitrary bytes incl. invalid UTF-8, every haystack length 0..160 forced by resizing plus sampled lengths up to 400 (thorough 4K), all engines, prefilter shapes, anchoring, spans, every packed variant via the hidden knobs). \
-For each case the haystack is copied flush against a PROT_NONE page on the right and, separately, directly after one on the left, and find / earliest / find_iter / overlapping steps / is_match / replace_all_bytes / stream_find_iter / packed find_in+find+find_iter are run on both placements. \
+For each case the haystack is copied flush against a PROT_NONE page on the right and, separately, directly after one on the left, and find / earliest / find_iter / overlapping steps / is_match / replace_all_bytes / (for valid UTF-8 haystacks) replace_all and replace_all_with on &str / stream_find_iter / packed find_in+find+find_iter are run on both placements. \
 A child dying by signal (SIGSEGV on a guard page) is a violation whose replay is the case the child stored in a MAP_SHARED breadcrumb file before running it; a panic is caught in the child; every reported match must satisfy start <= end <= len, pattern < patterns_len, inside the span. \
 Non-trivial = a Teddy searcher actually ran on the haystack (span length >= minimum_len) or the haystack length is within 3 of a multiple of 16. Distinct = distinct case fingerprint.",
     assumptions: &[
